@@ -822,14 +822,235 @@ func help2(c *Ctx) {
 				}
 			})
 		}
+		if ok {
+			// nothing is shown only for a list that names no variable
+			cut := map[ir.Edge]bool{}
+			for _, prm := range fn.Params {
+				if isStringType(prm.Type()) {
+					for _, e := range lenOnlyZeroEdges(fn, prm) {
+						cut[e] = true
+					}
+				}
+			}
+			ir.Instrs(fn, func(in ssa.Instruction) {
+				switch x := in.(type) {
+				case *ssa.BinOp:
+					// TrimSpace(list) == "" / != ""
+					if sv, isS := ir.ConstString(x.Y); isS && sv == "" && (x.Op == token.EQL || x.Op == token.NEQ) {
+						if ts := stdCall(x.X, "strings", "TrimSpace"); ts != nil && valEq(ts.Call.Args[0], envIn) {
+							for _, e := range ir.EdgesWhere(fn, x, x.Op == token.EQL) {
+								cut[ir.Edge{From: e.From, To: e.To}] = true
+							}
+						}
+					}
+				case *ssa.Call:
+					if fc := stdCall(x, "strings", "Fields"); fc != nil && valEq(fc.Call.Args[0], envIn) {
+						for _, e := range lenOnlyZeroEdges(fn, x) {
+							cut[e] = true
+						}
+					}
+					if ts := stdCall(x, "strings", "TrimSpace"); ts != nil && valEq(ts.Call.Args[0], envIn) {
+						for _, e := range lenOnlyZeroEdges(fn, x) {
+							cut[e] = true
+						}
+					}
+				}
+			})
+			reach := ir.Reach(fn.Blocks[0], nil, cut)
+			for _, r := range ir.ReturnWays(fn) {
+				if sv, isS := ir.ConstString(r.Results[0]); isS && sv == "" && r.ReachableUnder(reach, cut) {
+					ok, why = false, "the empty text can be returned for a list that names variables"
+				}
+			}
+		}
 		c.Check(ok, Q(fn), fn.Pos(), "every variable of the list appears", why)
 	} else {
 		c.Undecided("anchor:help-env-helper", token.NoPos, "not found")
 	}
+	help2helpers(c, ph)
 	if namesFn != nil {
 		help2names(c, namesFn)
 	} else {
 		c.Undecided("anchor:help-names-helper", token.NoPos, "not found")
+	}
+}
+
+// help2helpers: the two text helpers of the row printer, decided for the shapes they have today (an
+// accumulating loop; a first Fprintf followed by a loop over the remaining lines). Other shapes are not
+// claimed.
+func help2helpers(c *Ctx, ph *ssa.Function) {
+	// joinStrings(parts...): a part is left out only when it is blank
+	for _, fn := range c.pkgFuncsDeep("") {
+		if fn.Parent() != nil || fn.Signature.Recv() != nil || !fn.Signature.Variadic() || fn.Signature.Params().Len() != 1 || fn.Signature.Results().Len() != 1 {
+			continue
+		}
+		if !isStringSlice(fn.Params[0].Type()) || !isStringType(fn.Signature.Results().At(0).Type()) {
+			continue
+		}
+		called := false
+		for _, call := range ir.Calls(ph) {
+			if ir.Static(call) == fn {
+				called = true
+			}
+		}
+		if !called {
+			continue
+		}
+		ir.Instrs(fn, func(in ssa.Instruction) {
+			v, isV := in.(ssa.Value)
+			if !isV {
+				return
+			}
+			sl, h, isR := rangeElemHeader(v)
+			if !isR || h == nil || sl != ssa.Value(fn.Params[0]) {
+				return
+			}
+			for _, hin := range h.Instrs {
+				acc, isPhi := hin.(*ssa.Phi)
+				if !isPhi || acc.Comment == "rangeindex" || !isStringType(acc.Type()) {
+					continue
+				}
+				c.Mark(fn)
+				ok, why := true, ""
+				type leaf struct {
+					v    ssa.Value
+					from *ssa.BasicBlock
+					to   *ssa.BasicBlock
+				}
+				var leaves []leaf
+				for i, e := range acc.Edges {
+					p := h.Preds[i]
+					if !h.Dominates(p) {
+						continue
+					}
+					if q, isQ := e.(*ssa.Phi); isQ && q != acc && !isLoopHeader(q.Block()) {
+						for j, qe := range q.Edges {
+							leaves = append(leaves, leaf{qe, q.Block().Preds[j], q.Block()})
+						}
+						continue
+					}
+					leaves = append(leaves, leaf{e, p, h})
+				}
+				for _, lf := range leaves {
+					if mentionsValue(lf.v, acc, 0) && mentionsValue(lf.v, v, 0) {
+						continue
+					}
+					// left out: only a blank part
+					holds := func(x ssa.Value, want bool) bool {
+						return ir.HoldsAt(x, want, lf.from) || ir.HoldsOnEdge(x, want, lf.from, lf.to)
+					}
+					blank := false
+					ir.Instrs(fn, func(in2 ssa.Instruction) {
+						bo, isBo := in2.(*ssa.BinOp)
+						if !isBo {
+							return
+						}
+						if sv, isS := ir.ConstString(bo.Y); isS && sv == "" && (bo.Op == token.EQL || bo.Op == token.NEQ) {
+							if ts := stdCall(bo.X, "strings", "TrimSpace"); ts != nil && ts.Call.Args[0] == v && holds(bo, bo.Op == token.EQL) {
+								blank = true
+							}
+						}
+						if k, isK := ir.ConstInt(bo.Y); isK {
+							if lc, isCall := bo.X.(*ssa.Call); isCall && len(lc.Call.Args) == 1 {
+								if bi, isB := lc.Call.Value.(*ssa.Builtin); isB && bi.Name() == "len" {
+									if ts := stdCall(lc.Call.Args[0], "strings", "TrimSpace"); ts != nil && ts.Call.Args[0] == v {
+										for _, want := range []bool{true, false} {
+											z, okZ := lenCmp(bo.Op, 0, k)
+											o, _ := lenCmp(bo.Op, 1, k)
+											if okZ && z == want && o != want && holds(bo, want) {
+												blank = true
+											}
+										}
+									}
+								}
+							}
+						}
+					})
+					if !blank {
+						ok, why = false, "a part can be left out of the joined text although it is not blank"
+					}
+				}
+				if okB, w := noBreak(h); !okB {
+					ok, why = false, w
+				}
+				c.Check(ok, Q(fn)+":every-part", fn.Pos(), "every non-blank part is in the joined text", why)
+			}
+		})
+	}
+	// printTabbedRow(w, s1, s2): the first line is always printed, with s1; every further line of s2 too
+	for _, fn := range c.pkgFuncsDeep("") {
+		if fn.Parent() != nil || fn.Signature.Recv() != nil || fn.Signature.Params().Len() != 3 || fn.Signature.Results().Len() != 0 {
+			continue
+		}
+		if !isStringType(fn.Params[1].Type()) || !isStringType(fn.Params[2].Type()) {
+			continue
+		}
+		called := false
+		for _, call := range ir.Calls(ph) {
+			if ir.Static(call) == fn {
+				called = true
+			}
+		}
+		if !called {
+			continue
+		}
+		var first *ssa.Call
+		var loopPrint *ssa.Call
+		var loopHdr *ssa.BasicBlock
+		var lines ssa.Value
+		for _, call := range ir.Calls(fn) {
+			cv, isCall := call.(*ssa.Call)
+			if !isCall {
+				continue
+			}
+			args := printfArgs(cv)
+			if len(args) == 0 {
+				continue
+			}
+			hasS1 := false
+			for _, a := range args {
+				if a == ssa.Value(fn.Params[1]) {
+					hasS1 = true
+				}
+				if ts := stdCall(a, "strings", "TrimSpace"); ts != nil {
+					if sl, h, isR := rangeElemHeader(ts.Call.Args[0]); isR && h != nil {
+						loopPrint, loopHdr, lines = cv, h, sl
+					}
+				}
+			}
+			if hasS1 && !ir.InLoop(cv.Block()) {
+				first = cv
+			}
+		}
+		if first == nil || loopPrint == nil {
+			continue // another shape: not claimed
+		}
+		c.Mark(fn)
+		ok, why := true, ""
+		for _, r := range ir.Returns(fn) {
+			if first.Block() != r.Block() && !first.Block().Dominates(r.Block()) {
+				ok, why = false, "the row's first line (with its label) is not printed on every path"
+			}
+		}
+		if _, entry, _ := loopBody(loopHdr); entry != nil && entry != loopPrint.Block() && ir.Reach(entry, map[*ssa.BasicBlock]bool{loopPrint.Block(): true}, nil)[loopHdr] {
+			ok, why = false, "a line of a multi-line description can be left unprinted"
+		}
+		if okB, w := noBreak(loopHdr); !okB {
+			ok, why = false, w
+		}
+		// the loop covers lines[1:] of strings.Split(s2, "\n")
+		okLines := false
+		if sl, isSl := lines.(*ssa.Slice); isSl && sl.High == nil {
+			if lo, isC := ir.ConstInt(sl.Low); isC && lo == 1 {
+				if sp := stdCall(sl.X, "strings", "Split"); sp != nil && sp.Call.Args[0] == ssa.Value(fn.Params[2]) {
+					okLines = true
+				}
+			}
+		}
+		if !okLines {
+			continue // another shape: not claimed
+		}
+		c.Check(ok, Q(fn)+":every-line", fn.Pos(), "the label and every line of the text are printed", why)
 	}
 }
 
@@ -1154,7 +1375,7 @@ func help2names(c *Ctx, fn *ssa.Function) {
 	type kind struct{ short, long *ssa.Phi }
 	var k kind
 	decided := false
-	for _, ln := range []int64{2, 3, 6} {
+	for _, ln := range []int64{2, 3, 6, 40} {
 		for _, e0 := range []bool{true, false} {
 			for _, e1 := range []bool{true, false} {
 				empty := map[*ssa.Phi]bool{accs[0]: e0, accs[1]: e1}
